@@ -79,7 +79,11 @@ def run_bfs(modname, configs, st, max_depth, max_states, deadline_s, chunk=24, n
             ch = max(1, min(chunk, len(frontier) // (nproc * 4)))
             tasks = [(modname, frontier[i : i + ch]) for i in range(0, len(frontier), ch)]
             nxt = []
+            timed_out = False
             for res, agg, steps in pool.imap(_expand_task, tasks):
+                if time.time() - t0 > deadline_s * 1.15:
+                    timed_out = True  # stop consuming: the level is abandoned, counted as a cap
+                    break
                 st.outcomes.update(agg)
                 st.evaluations += steps
                 for ci, hist, results, err in res:
@@ -103,6 +107,11 @@ def run_bfs(modname, configs, st, max_depth, max_states, deadline_s, chunk=24, n
                             nxt.append((ci, cfg, tuple(hist) + (tuple(ev),)))
                             if len(st.samples) < 4 and len(hist) >= 3:
                                 st.sample({"cfg": cfg, "history": list(hist) + [ev]})
+            if timed_out:
+                for ci, _, _ in frontier:
+                    capped[ci] = "time budget %ds reached inside depth %d (level incomplete)" % (deadline_s, depth + 1)
+                pool.terminate()
+                break
             depth += 1
             for ci, _, _ in nxt:
                 per_cfg_depth[ci] = depth
